@@ -1,8 +1,8 @@
 SPECIFICATION ReqSpec
 CONSTANTS
-  MaxNodes = 4
+  MaxNodes = 5
   Tier = "q"
-  ModelIds <- ReqModels
+  ModelIds <- ReqModelsQ
   AllowAlias = FALSE
   AllowCycles = FALSE
   AllowEmpty = FALSE
